@@ -3,6 +3,7 @@ package props
 import (
 	"encoding/json"
 	"fmt"
+	"image/color"
 	"math"
 
 	"github.com/reactivego/ivg"
@@ -86,11 +87,11 @@ func init() {
 		Level: "exploration",
 		Rule: "engine P: float32 bit patterns (quick: class-complete set = every sign x exponent x 21 boundary mantissas, every multiple of 1/64 and 1/128 in [-128,128], every u/15120, k/120, integer <=16386, powers of two, each with +-1 ulp neighbours; thorough: all 2^32) " +
 			"through every public route that writes a number (SetLOD real, path coordinates at high and low resolution, arc rotation angle, SetNReg shortest-of-three, viewBox) and directly through the five unexported encoders (generated overlay); " +
-			"each encoded form is measured and decoded by the reference codec and by the real decoder, then re-encoded (idempotence). Naturals: boundary classes (thorough: all 2^30). Decoder side: all 128 one-byte, 16384 two-byte and 32768 strided four-byte patterns of each kind, every truncation. " +
+			"each encoded form is measured and decoded by the reference codec and by the real decoder, then re-encoded (idempotence). Naturals: boundary classes (thorough: all 2^30). Decoder side: all 128 one-byte, 16384 two-byte and 32768 strided four-byte patterns of each kind as instruction operands and as the four numbers of a viewBox chunk, every truncation of both. Metadata naturals: every palette length 1..64 x colour width 1..4 x {default, custom viewBox} (chunk lengths 3..258 cross the 1-byte/2-byte natural boundary). " +
 			"distinct = hash of (route, form length, exactness class); non-trivial = value not exactly representable in a short form (4-byte form with rounding)",
 		Assumptions: []string{"linux/amd64 float-to-integer conversion semantics", "ulp distances measured on float32 bit patterns"},
 		Units: func(tier string) int {
-			n := len(c08QuickBatches()) + 3
+			n := len(c08QuickBatches()) + 4
 			if tier == "thorough" {
 				n += c08ThoroughUnits + 1024
 			}
@@ -107,6 +108,9 @@ type c08Case struct {
 	Bits  []uint32 `json:"value_bits"`
 	Nat   uint32   `json:"natural,omitempty"`
 	Hex   string   `json:"hex,omitempty"`
+	N     int      `json:"entries,omitempty"`
+	W     int      `json:"colour_width,omitempty"`
+	VB    int      `json:"viewbox,omitempty"`
 }
 
 func c08Run(w *mc.W, u int) {
@@ -121,8 +125,10 @@ func c08Run(w *mc.W, u int) {
 		st.decoderForms()
 	case u == nq+2:
 		st.nregTies()
-	case u < nq+3+c08ThoroughUnits:
-		base := uint32(u-nq-3) << 20
+	case u == nq+3:
+		st.chunkLengths()
+	case u < nq+4+c08ThoroughUnits:
+		base := uint32(u-nq-4) << 20
 		buf := make([]uint32, c08Batch)
 		for off := uint32(0); off < 1<<20; off += c08Batch {
 			if w.Expired() {
@@ -134,7 +140,7 @@ func c08Run(w *mc.W, u int) {
 			st.batch(buf)
 		}
 	default:
-		st.naturals(true, u-(nq+3+c08ThoroughUnits))
+		st.naturals(true, u-(nq+4+c08ThoroughUnits))
 	}
 }
 
@@ -149,6 +155,8 @@ func c08Replay(w *mc.W, data json.RawMessage) error {
 		st.natural(cs.Nat)
 	case "decoder":
 		st.decoderOne(gen.Magic, mkBytesCase(nil, "").bytes(), cs.Hex)
+	case "chunk-length":
+		st.chunkLength(cs.N, cs.W, cs.VB)
 	default:
 		st.batch(cs.Bits)
 	}
@@ -682,6 +690,52 @@ func (st *c08State) decoderOne(pre, form []byte, hexIn string) {
 		h.Byte(byte(len(form)))
 		w.Outcome(h.Sum(), len(form) == 4)
 	}
+	// the same form as the four numbers of a viewBox chunk: read as coordinates, and every
+	// cut of the metadata is a decoding error (never a read past the end)
+	{
+		w.EvalN(1)
+		b := append(append([]byte{}, gen.Magic...), 0x02, byte(2*(1+4*len(form))), 0x00)
+		for i := 0; i < 4; i++ {
+			b = append(b, form...)
+		}
+		cs := c08Case{Route: "decoder", Hex: fmt.Sprintf("%x", form)}
+		p := st.ps.Parse(b)
+		st.rd.ResetLog()
+		err, pnc, _ := safeDecode(&st.rd, b)
+		switch {
+		case pnc != nil:
+			w.Fail("decoder:viewbox-panic", fmt.Sprintf("stream %x: panic %v", b, pnc), cs)
+		case (err == nil) != p.OK:
+			w.Fail("decoder:viewbox-accept", fmt.Sprintf("stream %x: err=%v, specification says ok=%v (%s)", b, err, p.OK, p.Reason), cs)
+		case err == nil && (len(st.rd.Calls) != 1 || !sameVB(st.rd.Calls[0].VB, p.VB)):
+			w.Fail("decoder:viewbox-value", fmt.Sprintf("stream %x: viewBox %v, specification says %v", b, st.rd.Calls, p.VB), cs)
+		}
+		if vb, verr := decode.DecodeViewBox(b); (verr == nil) != p.OK || (verr == nil && !sameVB(vb, p.VB)) {
+			w.Fail("decoder:viewbox-value", fmt.Sprintf("DecodeViewBox(%x) = %v, %v; specification says ok=%v %v", b, vb, verr, p.OK, p.VB), cs)
+		}
+		for n := 4; n < len(b); n++ {
+			st.rd.ResetLog()
+			err, pnc, _ := safeDecode(&st.rd, b[:n])
+			if _, ok := err.(decode.DecodeError); !ok || pnc != nil {
+				w.Fail("decoder:metadata-truncation", fmt.Sprintf("stream %x cut to %d bytes: err=%v panic=%v", b, n, err, pnc), cs)
+			}
+			func() {
+				defer func() {
+					if r := recover(); r != nil {
+						w.Fail("decoder:metadata-truncation", fmt.Sprintf("DecodeViewBox of stream %x cut to %d bytes: panic %v", b, n, r), cs)
+					}
+				}()
+				if _, verr := decode.DecodeViewBox(b[:n]); verr == nil {
+					w.Fail("decoder:metadata-truncation", fmt.Sprintf("DecodeViewBox of stream %x cut to %d bytes succeeds", b, n), cs)
+				}
+			}()
+		}
+		h := mc.NewHasher()
+		h.Str("decoder-viewbox")
+		h.Byte(byte(len(form)))
+		h.Bool(p.OK)
+		w.Outcome(h.Sum(), len(form) == 4)
+	}
 	if privDec != nil {
 		if u, n := privDec.Natural(form); n != len(form) {
 			w.Fail("decoder:natural", fmt.Sprintf("natural %x read as %d in %d bytes", form, u, n), c08Case{Route: "decoder", Hex: fmt.Sprintf("%x", form)})
@@ -694,6 +748,88 @@ func (st *c08State) decoderOne(pre, form []byte, hexIn string) {
 			}
 		}
 	}
+}
+
+func sameVB(a, b ivg.ViewBox) bool {
+	return f32b(a.MinX) == f32b(b.MinX) && f32b(a.MinY) == f32b(b.MinY) && f32b(a.MaxX) == f32b(b.MaxX) && f32b(a.MaxY) == f32b(b.MaxY)
+}
+
+// chunkLengths: the naturals the metadata writer produces (chunk count, chunk lengths,
+// metadata identifiers): every palette length 1..64 x colour width 1..4 bytes x {default,
+// custom} viewBox; the palette chunk is 3..258 bytes long, so its length crosses the
+// 1-byte / 2-byte boundary of the natural encoding.
+func (st *c08State) chunkLengths() {
+	for vb := 0; vb < 2; vb++ {
+		for wd := 1; wd <= 4; wd++ {
+			for n := 1; n <= 64; n++ {
+				st.chunkLength(n, wd, vb)
+			}
+		}
+	}
+}
+
+var c08PalCols = [5]color.RGBA{1: {0xff, 0xff, 0xff, 0xff}, 2: {0x33, 0x22, 0x11, 0x33}, 3: {0x30, 0x66, 0x07, 0xff}, 4: {0x30, 0x20, 0x07, 0x80}}
+
+func (st *c08State) chunkLength(n, wd, vbi int) {
+	w := st.w
+	w.EvalN(1)
+	cs := c08Case{Route: "chunk-length", N: n, W: wd, VB: vbi}
+	vb := ivg.DefaultViewBox
+	if vbi == 1 {
+		vb = ivg.ViewBox{MinX: -300.5, MinY: -1e5, MaxX: 1000.5, MaxY: 700.25} // exact in the 4-byte form
+	}
+	pal := ivg.DefaultPalette
+	for i := 0; i < n; i++ {
+		pal[i] = c08PalCols[wd]
+	}
+	var e encode.Encoder
+	e.Reset(vb, pal)
+	out, err := e.Bytes()
+	if err != nil {
+		w.Fail("chunk-length:bytes-error", err.Error(), cs)
+		return
+	}
+	// walk the metadata with the reference natural codec
+	pos := 4
+	cnt, k := ref.Natural(out[pos:])
+	wantCnt := uint32(1 + vbi)
+	if k == 0 || cnt != wantCnt || k != ref.NaturalLen(cnt) {
+		w.Fail("chunk-length:count", fmt.Sprintf("metadata %s: chunk count reads %d in %d bytes, expected %d", hexShort(out), cnt, k, wantCnt), cs)
+		return
+	}
+	pos += k
+	for c := uint32(0); c < cnt; c++ {
+		l, k := ref.Natural(out[min(pos, len(out)):])
+		// (that the declared length matches the content is judged by the reference parser below)
+		if k == 0 || k != ref.NaturalLen(l) || (c == cnt-1 && int(l) != 2+n*wd) {
+			w.Fail("chunk-length:length", fmt.Sprintf("metadata %s: chunk length at %d reads %d in %d bytes (shortest form %d); the palette chunk is %d bytes", hexShort(out), pos, l, k, ref.NaturalLen(l), 2+n*wd), cs)
+			return
+		}
+		pos += k + int(l)
+	}
+	if pos != len(out) {
+		w.Fail("chunk-length:length", fmt.Sprintf("metadata %s: %d bytes, the chunks account for %d", hexShort(out), len(out), pos), cs)
+		return
+	}
+	var ps ref.Parser
+	var rd rec.Dest
+	p := ps.Parse(out)
+	derr, pnc, _ := safeDecode(&rd, out)
+	if !p.OK || derr != nil || pnc != nil || len(rd.Calls) != 1 {
+		w.Fail("chunk-length:decode", fmt.Sprintf("metadata %s: reference ok=%v (%s), decoder err=%v panic=%v", hexShort(out), p.OK, p.Reason, derr, pnc), cs)
+		return
+	}
+	w.Trace()
+	got := rd.Calls[0]
+	if !sameVB(got.VB, vb) || !sameVB(p.VB, vb) || got.Pal == nil || *got.Pal != pal || p.Pal != pal {
+		w.Fail("chunk-length:content", fmt.Sprintf("metadata %s decodes to %v, written %v / %d x %v", hexShort(out), got, vb, n, c08PalCols[wd]), cs)
+	}
+	h := mc.NewHasher()
+	h.Str("chunk-length")
+	h.Byte(byte(ref.NaturalLen(uint32(2 + n*wd))))
+	h.Byte(byte(wd))
+	h.Byte(byte(vbi))
+	w.Outcome(h.Sum(), 2+n*wd >= 128)
 }
 
 // nregTies: values where two of the three NREG forms have the same length.
